@@ -331,6 +331,16 @@ def run_shard(shard, rec):
         rec.exhaustive.append('range boundaries of all three bases, each '
                               'written in all three bases')
     elif kind == 'malformed':
+        # a places argument that is not a number: an error value, never an
+        # exception; an error value is handed through
+        for name in BASES:
+            for bad, exp in (('x', ANYERR), ('', CLOSURE), ('#DIV/0!', '#DIV/0!'),
+                             ('#N/A', '#N/A'), ('4x', ANYERR), ('1e', ANYERR)):
+                ctx.run(f'DEC2{name}', (5, bad), exp, 'malformed-places', True)
+                for other in BASES:
+                    if other != name:
+                        ctx.run(f'{name}2{other}', ('1', bad), exp,
+                                'malformed-places', True)
         seeds = {'BIN': ['1', '101', '1111111111', '0000000001'],
                  'OCT': ['7', '17', '7777777777', '0000000010'],
                  'HEX': ['F', '1f', 'FFFFFFFFFF', '00000000A0']}
